@@ -71,8 +71,9 @@ subset of the supports the library itself writes), in both modes.
         library and REPAIRED (`fix:` commit 26c56a9: both shifts guarded like `get_buckets` already was).  The
         first-written code is kept in the model (`Sparse.splitOld` / `combineOld`): it equals the model's
         `split` / `combine` below width 64 and fails at width 64 — `sparse_width_64_old_code_fails`.  The model's
-        `Sparse.split` / `combine` use unbounded `Nat` shifts, i.e. they describe the repaired code
-        (`index >>> 64 = 0` for every `usize`): `sparse_width_64_repaired_code_agrees_with_model`; width 64 is now
+        `Sparse.split` uses the unbounded `Nat` shift (`index >>> 64 = 0` for every `usize`) and `Sparse.combine`
+        carries the guard of the code (no subtraction, high part 0 at width ≥ 64), i.e. they describe the repaired
+        code: `sparse_width_64_repaired_code_agrees_with_model`; width 64 is now
         exercised by the correspondence check (document-level encoder with every width 1..=64) and the minimised
         file is in `corpus/C07`;
       - run-length: every integer minimally encoded (`Format2.RLCanon`) — FALSE without it, see
@@ -392,8 +393,8 @@ theorem sparse_document_file_with_library_supports_loads (lenE : Word) (H : List
 sparse bitvector of the document with content `(5, [3])` and is loaded by the library; no vector `Encodes` anything at
 width 64.  This file found defect F13 (REPAIRED, `fix:` commit 26c56a9): `split` / `combine` as first written shifted
 a `usize` by 64 on it.  The first-written code is kept in the model as `Sparse.splitOld` / `Sparse.combineOld` and is
-the counterexample (`sparse_width_64_old_code_fails`); the model's `Sparse.split` / `Sparse.combine` (unbounded
-shifts) are what the repaired, guarded code computes (`sparse_width_64_repaired_code_agrees_with_model`), and the model
+the counterexample (`sparse_width_64_old_code_fails`); the model's `Sparse.split` (unbounded shift) / `Sparse.combine`
+(guarded like the code) are what the repaired, guarded code computes (`sparse_width_64_repaired_code_agrees_with_model`), and the model
 answers correctly on this file (`Format2.sp_w64_model_answers`); the correspondence check runs it. -/
 theorem sparse_width_64_file :
     Doc.sparse Format2.sp_w64_file = some ((5, [3]), []) ∧
